@@ -53,8 +53,9 @@ fn negotiate_within_budget() {
         }
         Err(_) => {
             // within the property's budget range an error needs a client block whose number
-            // cannot be represented after rescaling
+            // cannot be represented after rescaling - which cannot happen when the client's size is kept
             assert!(client.is_some());
+            if let Some(c) = &client { assert!(!(c.size() + overhead + 32 <= budget)); }
         }
     }
 }
